@@ -2928,7 +2928,15 @@ func ruleConcatSeparator(c *Ctx) {
 		if bi, ok := cl.Call.Value.(*ssa.Builtin); !ok || bi.Name() != "append" || len(cl.Call.Args) < 2 {
 			return
 		}
-		for _, oc := range callsTo(fn, optStr) {
+		// the separator is argument 2, read as an optional or (under a presence test) a checked string
+		readers := callsTo(fn, optStr)
+		if cs := p.Fn("lua", "(*LState).CheckString"); cs != nil {
+			readers = append(readers, callsTo(fn, cs)...)
+		}
+		for _, oc := range readers {
+			if k, ok := constInt(oc.Call.Args[1]); !ok || k != 2 {
+				continue
+			}
 			if dependsOnValue(cl.Call.Args[1], oc, 0) {
 				sepAppends = append(sepAppends, cl)
 			}
@@ -2938,6 +2946,14 @@ func ruleConcatSeparator(c *Ctx) {
 		c.und(R, "tableConcat:separator-by-position", p.pos(fn.Pos()), "the append of the separator was not found")
 		return
 	}
+	// F135: the separator is a string or a number: it is not read with the strict OptString
+	strict := false
+	for _, oc := range callsTo(fn, optStr) {
+		if k, ok := constInt(oc.Call.Args[1]); ok && k == 2 {
+			strict = true
+		}
+	}
+	c.check(!strict, R, "tableConcat:separator-may-be-a-number", p.pos(fn.Pos()), "argument 2 is not read with OptString (strings only)", "tableConcat reads the separator with OptString, which refuses numbers: table.concat({1, 2, 3}, 0) raises 'string expected, got number' where the result is \"10203\"")
 	var bad ssa.Instruction
 	for _, sa := range sepAppends {
 		for _, cd := range g.expandAnd(g.CondsAtInstr(sa)) {
